@@ -4,7 +4,7 @@ from . import gen
 from oracle import c3dref, obsmodel, contract
 
 HARNESSES = ['h_hist.cpp']
-NOPS = 54
+NOPS = 56
 OP_NAMES = {0: 'frame(declared shape)', 1: 'frame(one point too few)', 2: 'frame(one point too many)', 3: 'frame(last point renamed)', 4: 'frame(last point duplicates the first)',
             5: 'frame(empty)', 6: 'frame(points only)', 7: 'frame(analogs only)', 8: 'frame(one channel too few)', 9: 'frame(one channel too many)',
             10: 'frame(f, 0)', 11: 'frame(f, last)', 12: 'frame(f, count)', 13: 'frame(f, count+2)', 14: 'frame(one point too many, 0)',
@@ -12,7 +12,7 @@ OP_NAMES = {0: 'frame(declared shape)', 1: 'frame(one point too few)', 2: 'frame
             20: 'analog(frames)', 21: 'analog(frames, one frame short)', 22: 'analog(frames, one sub-frame short)', 23: 'analog(empty vector)', 24: 'analog(frames, existing name)', 25: 'analog(frames, second name exists)',
             26: 'POINT:RATE=0', 27: 'POINT:RATE=50', 28: 'POINT:RATE=100', 29: 'ANALOG:RATE=0', 30: 'ANALOG:RATE=100', 31: 'ANALOG:RATE=200',
             32: 'parameter(new group)', 33: 'parameter(POINT, new)', 34: 'parameter(POINT, replace with other type)', 35: 'parameter(unnamed)', 36: 'parameter(untyped, new group)', 37: 'parameter(untyped, POINT)',
-            38: 'lockGroup(POINT)', 39: 'lockGroup(unknown)', 40: 'point(name)', 41: 'point(existing name)', 42: 'analog(name)', 43: 'save+reload', 44: 'point(frames, two new points, last frame lacks the second)', 45: 'analog(frames, two new channels, last sub-frame lacks the second)', 46: 'ANALOG:RATE=300', 47: 'frame(first point renamed)', 48: 'frame(one point too few, last)', 49: 'frame(last point renamed, 0)', 50: 'point(frames, one frame too many)', 51: 'point(frames, name of the last label)', 52: 'analog(frames, one frame too many)', 53: 'analog(frames, name of the last label)'}
+            38: 'lockGroup(POINT)', 39: 'lockGroup(unknown)', 40: 'point(name)', 41: 'point(existing name)', 42: 'analog(name)', 43: 'save+reload', 44: 'point(frames, two new points, last frame lacks the second)', 45: 'analog(frames, two new channels, last sub-frame lacks the second)', 46: 'ANALOG:RATE=300', 47: 'frame(first point renamed)', 48: 'frame(one point too few, last)', 49: 'frame(last point renamed, 0)', 50: 'point(frames, one frame too many)', 51: 'point(frames, name of the last label)', 52: 'analog(frames, one frame too many)', 53: 'analog(frames, name of the last label)', 54: 'point(frames, last frame carries a stray extra point)', 55: 'analog(frames, last frame carries a stray extra channel)'}
 START_NAMES = {0: 'fresh', 1: 'declared', 2: 'populated', 3: 'loaded', 4: 'loaded (fewer labels than points)'}
 
 def hist_jobs(tier, seed, depth_q=2, depth_t=3, finish=1, dupdeclare=0):
@@ -46,7 +46,7 @@ def steps_of(sec):
         out.append((sec['before' + sfx], dict(sec['call' + sfx]), sec['after' + sfx])); k += 1
     return out
 
-def explore(engine, job, prop, per_step, wall=250, maxsteps=40_000_000):
+def explore(engine, job, prop, per_step, wall=250, maxsteps=40_000_000, final=None):
     """run one history job; per_step(k, before_sec, call, after_sec, st) -> [Obl].  Fatal path ends are
     violations of C13's class and make this property undecided for that history (reported as inconclusive)."""
     eng = engine('O1')
@@ -78,6 +78,7 @@ def explore(engine, job, prop, per_step, wall=250, maxsteps=40_000_000):
                     vals = eng.concretize(r.st, tobv(fv, 64) if z3.is_bool(fv) else fv, 1)     # a fact must be determined by the path
                     call[fk] = vals[0]
             obls += per_step(k, b, call, a, r.st, sec)
+        if final is not None: obls += final(sec, r.st, history_tag(steps_of(sec), rate_tag=True))
         if first and obls:
             vacuity_twin(eng, r.st, obls, res); first = False
             res['sample'] = {'history': hist, 'obligations': len(obls), 'path_condition_terms': len(r.st.pc), 'symbols': len(r.st.symlist)}
@@ -89,19 +90,23 @@ def explore(engine, job, prop, per_step, wall=250, maxsteps=40_000_000):
     res['functions'] = sorted(f for f in eng.fn_executed if 'ezc3d' in f)
     return res
 
-def history_tag(steps):
+def history_tag(steps, rate_tag=False):
     """suffix of a violation id naming the (recorded) history feature it depends on, so that known findings are
     identified by the history that fails and other violations of the same obligation are still reported"""
+    tag_rate = ''
     for b, call, a in steps:
         if call.get('call.kind') == 3 and call.get('arg.zero') == 1 and call.get('call.outcome') == 0:
             nb = dict((l, v) for l, v in b if l == 'dat.nbFrames').get('dat.nbFrames', 0)
             if nb: return '@rate-zeroed-with-data'          # a rate set back to 0 while frames carrying that kind of data exist
+        if call.get('call.kind') == 3 and call.get('call.outcome') == 0:
+            nb = dict((l, v) for l, v in b if l == 'dat.nbFrames').get('dat.nbFrames', 0)
+            if nb: tag_rate = '@rate-changed-with-data'       # the ratio of the rates no longer matches the stored sub-frame count (matters for C01 only)
         if call.get('call.kind') == 0 and call.get('call.outcome') == 0:
             idx = call.get('arg.idx')
             nb = dict((l, v) for l, v in b if l == 'dat.nbFrames').get('dat.nbFrames', 0)
             if is_c(idx) and idx != 0xFFFFFFFFFFFFFFFF and idx > nb: return '@indexed-store-beyond-the-end'     # documented gap frames (C06)
             if call.get('arg.nbPoints') == 0 and call.get('arg.nbSubframes') == 0: return '@empty-frame-stored'
-    return ''
+    return tag_rate if rate_tag else ''
 
 def native_steps(nat, v):
     out, sec = native_sections(nat, v['replay'])
